@@ -29,6 +29,7 @@ import (
 
 	"github.com/marekgalovic/anndb/index"
 	amath "github.com/marekgalovic/anndb/math"
+	pb "github.com/marekgalovic/anndb/protobuf"
 	"github.com/marekgalovic/anndb/storage"
 	uuid "github.com/satori/go.uuid"
 	"verifharness/internal/hx"
@@ -1138,6 +1139,9 @@ func random(c Cfg, n, maxlen int, seed int64, out, rankOut string) {
 		return hx.Item{Id: 1 + rng.Intn(c.NIds), Pt: 1 + rng.Intn(c.Np), Lvl: lvl(rng, c.MaxLv), Meta: meta()}
 	}
 	for hid := 1; hid <= n; hid++ {
+		if hid%25 == 1 {
+			enc.Encode(nearUpdate(d, hid, rng))
+		}
 		enc.Encode(d.resetEvent(hid))
 		ln := 1 + rng.Intn(maxlen)
 		// the first third of the histories is insert-only (C07 clause 1 at larger M)
@@ -1217,3 +1221,53 @@ func lvl(rng *rand.Rand, max int) int {
 }
 
 var _ = index.ItemNotFoundError
+
+// nearUpdate: "updating replaces the vector" for every vector - also one that differs from the stored one in the last
+// bit of one coordinate only (single and batch update, on a state machine of its own: the model's universe has no such
+// pair of points).  The event carries the bits asked for and the bits stored afterwards.
+func nearUpdate(d *driver, hid int, rng *rand.Rand) map[string]interface{} {
+	sm := storage.NewVerifPartitionSM(d.cfg.Index.New(d.u))
+	ev := map[string]interface{}{"ev": "near", "hid": hid, "want": []string{}, "got": []string{}, "err": ""}
+	defer func() {
+		if r := recover(); r != nil {
+			ev["err"] = fmt.Sprint("panic: ", r)
+		}
+	}()
+	bits := func(v amath.Vector) string {
+		s := ""
+		for _, x := range v {
+			s += fmt.Sprintf("%08x", math.Float32bits(x))
+		}
+		return s
+	}
+	var want, got []string
+	for k := 1; k <= 3 && k <= len(d.u.Vecs); k++ {
+		id := hx.Uid(k)
+		v := append(amath.Vector{}, d.u.Vecs[k-1]...)
+		sm.Apply(&pb.PartitionChange{Type: pb.PartitionChangeType_PartitionChangeInsertValue, Id: id.Bytes(), Value: v})
+		c := rng.Intn(len(v))
+		for step := 0; step < 2; step++ {
+			nv := append(amath.Vector{}, v...)
+			up := float32(math.Inf(1))
+			if (k+step)%2 == 0 {
+				up = float32(math.Inf(-1))
+			}
+			nv[c] = math.Nextafter32(nv[c], up)
+			if step == 0 {
+				sm.Apply(&pb.PartitionChange{Type: pb.PartitionChangeType_PartitionChangeUpdateValue, Id: id.Bytes(), Value: nv})
+			} else {
+				sm.Apply(&pb.PartitionChange{Type: pb.PartitionChangeType_PartitionChangeBatchUpdateValue,
+					BatchItems: []*pb.BatchItem{{Id: id.Bytes(), Value: nv}}})
+			}
+			st, err := sm.Index().Get(id)
+			if err != nil {
+				ev["err"] = err.Error()
+				return ev
+			}
+			want, got = append(want, bits(nv)), append(got, bits(st))
+			v = nv
+		}
+	}
+	ev["want"], ev["got"] = want, got
+	return ev
+}
